@@ -361,6 +361,12 @@ def diff_case(case: Case, rng, res, n_random=4, n_models=2, unknown_p=0.0, recor
     res["counters"]["programs"] += 1
     res["counters"]["paths"] += len(r.paths)
     res["counters"]["injected_unknowns"] += r.injected
+    if r.budget_exceeded:
+        res["counters"]["symbolic_step_budget_exceeded"] += 1
+        return None
+    if r.crash == "too many paths":
+        res["counters"]["too_many_paths"] += 1
+        return None
     if r.crash:
         res["violations"].append(dict(prop="C01", what="internal exception escaped SEVM.run (exploration aborted)", key="crash:" + r.crash.strip().splitlines()[-1][:60],
                                       case=case.describe(), crash=r.crash[-1200:]))
